@@ -15,64 +15,161 @@ def summarize_cfg(c):
     return "P%d %d..%d muts=%s rate=%s%s%s%s" % (c["P"], c["min"], c["max"], ",".join(c["muts"]) or "-", c["rate"],
             " unsafe" if c["unsafe"] else "", " ext" if c["ext"] else "", " buf" if c["buf"] else "")
 
+def run_and_validate_traces(jobs, d, name, timeout):
+    """real generations with the recorder on -> ndjson traces -> TLC (TraceGen) in shards"""
+    jf = os.path.join(d, name + "_jobs.json"); json.dump(jobs, open(jf, "w"))
+    of = os.path.join(d, name + "_traces.ndjson")
+    t0 = time.time()
+    run([PFV, "run-jobs", jf, of, str(CORES)], timeout=7200)
+    t_gen = time.time() - t0
+    lines = [l for l in open(of).read().split("\n") if l]
+    if len(lines) != len(jobs):
+        raise ToolError("harness returned %d traces for %d jobs" % (len(lines), len(jobs)))
+    weights = [l.count('"ph"') + 1 for l in lines]
+    nsh = max(1, min(CORES - 2, len(lines) // 20 + 1))
+    shards = shard_lines(lines, nsh, weights)
+    files = []
+    for i, ixs in enumerate(shards):
+        p = os.path.join(d, "%s_shard%d.ndjson" % (name, i))
+        open(p, "w").write("\n".join(lines[j] for j in ixs) + "\n"); files.append(p)
+    t0 = time.time()
+    res = tlc.run_trace_shards(name, "TraceGen.tla", "TraceGen.cfg", files, timeout=timeout)
+    t_tlc = time.time() - t0
+    findings, done_runs, done_events, states = [], 0, 0, 0
+    for vals, st, wall in res:
+        states += st["distinct"]
+        for v in vals:
+            if v and v[0] == "MSGS":
+                findings.extend(v[1])
+            elif v and v[0] == "DONE":
+                done_runs += v[1]; done_events += v[2]
+    total_events = sum(w - 1 for w in weights)
+    if done_runs != len(jobs) or done_events != total_events:
+        raise ToolError("trace validation incomplete: TLC consumed %d/%d runs, %d/%d events" % (done_runs, len(jobs), done_events, total_events))
+    for p in files: os.remove(p)
+    return findings, lines, {"events": total_events, "states": states, "gen_wall_s": t_gen, "tlc_wall_s": t_tlc, "shards": len(files), "max_events": max(weights) - 1}
+
 def tracegen_stage(tier_, key):
-    """run the corpus through the real generator and validate every trace with TLC"""
+    """run the corpus through the real generator and validate every trace with TLC; where the
+    implementation enables an opcode the model does not (drift), re-run that generation with the
+    opcode FORCED at that step and validate the result (drift directs the search)"""
     def compute(d):
         build_harness()
         jobs = corpus.tracegen_jobs(tier_)
-        jf = os.path.join(d, "tracegen_jobs.json"); json.dump(jobs, open(jf, "w"))
-        of = os.path.join(d, "tracegen_traces.ndjson")
-        t0 = time.time()
-        run([PFV, "run-jobs", jf, of, str(CORES)], timeout=7200)
-        t_gen = time.time() - t0
-        lines = open(of).read().split("\n"); lines = [l for l in lines if l]
-        if len(lines) != len(jobs):
-            raise ToolError("harness returned %d traces for %d jobs" % (len(lines), len(jobs)))
-        weights = [l.count('"ph"') + 1 for l in lines]
-        nsh = max(1, min(CORES - 2, len(lines) // 20 + 1))
-        shards = shard_lines(lines, nsh, weights)
-        files = []
-        for i, ixs in enumerate(shards):
-            p = os.path.join(d, "tracegen_shard%d.ndjson" % i)
-            open(p, "w").write("\n".join(lines[j] for j in ixs) + "\n"); files.append(p)
-        t0 = time.time()
-        res = tlc.run_trace_shards("tracegen", "TraceGen.tla", "TraceGen.cfg", files, timeout=7200 if tier_ == "thorough" else 1500)
-        t_tlc = time.time() - t0
-        findings, done_runs, done_events, states = [], 0, 0, 0
-        for vals, st, wall in res:
-            states += st["distinct"]
-            for v in vals:
-                if v and v[0] == "MSGS":
-                    for m in v[1]:
-                        findings.append(m)
-                elif v and v[0] == "DONE":
-                    done_runs += v[1]; done_events += v[2]
-        total_events = sum(w - 1 for w in weights)
-        if done_runs != len(jobs) or done_events != total_events:
-            raise ToolError("trace validation incomplete: TLC consumed %d/%d runs, %d/%d events"
-                            % (done_runs, len(jobs), done_events, total_events))
+        tmo = 7200 if tier_ == "thorough" else 1500
+        findings, lines, stt = run_and_validate_traces(jobs, d, "tracegen", tmo)
         byid = {j["id"]: j for j in jobs}
+        lineof = {}
         out = []
+        directed, seen_dir = [], {}
         for m in findings:
             kind, rid, evix, tag, why = m[0], m[1], m[2], m[3], m[4]
             out.append({"kind": kind, "job": byid[rid], "event": evix, "tag": tag, "why": why if isinstance(why, str) else json.dumps(why)})
-        # coverage summary
-        cov = {"runs": len(jobs), "events": total_events, "tlc_states": states,
+            if kind == "D" and tag == "enabled" and not isinstance(why, str):
+                extra = why[1].get("__set__", []) if isinstance(why[1], dict) else []
+                if not extra: continue
+                if not lineof:
+                    for l in lines:
+                        lineof[json.loads(l)["id"]] = l
+                ev = json.loads(lineof[rid])["ev"]
+                body_ix = sum(1 for e in ev[:evix - 1] if e["ph"] == 5)
+                j = byid[rid]
+                for op in extra:
+                    k = (j["cfg"]["P"], j["cfg"]["unsafe"], j["cfg"]["ext"], j["cfg"]["buf"], op)
+                    if seen_dir.get(k, 0) >= 3 or len(directed) >= 120: continue
+                    seen_dir[k] = seen_dir.get(k, 0) + 1
+                    dj = dict(j); dj["id"] = 1000000 + len(directed); dj["force"] = [[body_ix, op]]
+                    directed.append(dj)
+        n_directed = len(directed)
+        if directed:
+            f2, _, st2 = run_and_validate_traces(directed, d, "tracegen_directed", tmo)
+            byid2 = {j["id"]: j for j in directed}
+            for m in f2:
+                if m[0] == "V":
+                    out.append({"kind": "V", "job": byid2[m[1]], "event": m[2], "tag": m[3], "why": (m[4] if isinstance(m[4], str) else json.dumps(m[4])) + " [forced opcode after drift]"})
+            stt["events"] += st2["events"]; stt["states"] += st2["states"]
+        cov = {"runs": len(jobs) + n_directed, "events": stt["events"], "tlc_states": stt["states"],
+               "directed_runs_after_drift": n_directed,
                "safe_runs": sum(1 for j in jobs if not j["cfg"]["unsafe"] and not j["cfg"]["mut_unsafe"]),
                "unsafe_runs": sum(1 for j in jobs if j["cfg"]["unsafe"] or j["cfg"]["mut_unsafe"]),
                "bytes_mode_runs": sum(1 for j in jobs if j["mode"] == "bytes"),
                "distinct_configs": len({json.dumps(j["cfg"], sort_keys=True) for j in jobs}),
-               "max_events_in_a_run": max(weights) - 1,
-               "gen_wall_s": round(t_gen, 1), "tlc_wall_s": round(t_tlc, 1), "shards": len(files)}
-        # a few sample traces, decoded
+               "max_events_in_a_run": stt["max_events"],
+               "gen_wall_s": round(stt["gen_wall_s"], 1), "tlc_wall_s": round(stt["tlc_wall_s"], 1), "shards": stt["shards"]}
         samples = []
         for l in lines[:: max(1, len(lines) // 4)][:4]:
             r = json.loads(l)
             samples.append({"cfg": summarize_cfg(byid[r["id"]]["cfg"]), "mode": byid[r["id"]]["mode"], "seed": byid[r["id"]]["seed"],
                             "bytes_hex": bytes(r["bytes"]).hex()[:160], "n_events": len(r["ev"]),
                             "claimed_opcodes": [e["op"] for e in r["ev"] if e["op"] >= 0][:40]})
-        return {"findings": out, "coverage": cov, "samples": samples}
+        return {"findings": out[:5000], "coverage": cov, "samples": samples}
     return cached(key, "tracegen_%s_%d" % (tier_, seed()), compute)
+
+def bytes_jobs(tier_):
+    q = tier_ == "quick"
+    J = corpus.Jobs("bytes-" + tier_)
+    for P in range(6):
+        for _ in range(350 if q else 4000):
+            J.seed_job(corpus.cfg(P), rec=False, deep=0)
+        for _ in range(60 if q else 600):
+            J.bytes_job(corpus.cfg(P), blen=3000, rec=False, deep=0)
+            J.seed_job(corpus.cfg(P, ext=True, buf=True), rec=False, deep=0)
+            J.seed_job(corpus.cfg(P, 60, 300, muts=corpus.MUTS, rate=0.5), rec=False, deep=0)
+            J.seed_job(corpus.cfg(P, 60, 300, muts=corpus.MUTS, rate=0.5, unsafe=True, ext=True), rec=False, deep=0)
+        for kind in ("ff", "zero", "empty", "ramp"):
+            J.bytes_job(corpus.cfg(P, ext=True, buf=True), kind=kind, blen=4000, rec=False, deep=0)
+            J.bytes_job(corpus.cfg(P, 60, 300, muts=corpus.MUTS, rate=1.0, unsafe=True, ext=True, buf=True), kind=kind, blen=4000, rec=False, deep=0)
+    # very long programs, judged with the depth-only reference machine
+    deep = [(0, 25000), (1, 25000), (4, 45000)] if q else [(0, 25000), (1, 30000), (2, 45000), (3, 45000), (4, 60000), (5, 80000), (0, 60000)]
+    for P, n in deep:
+        J.seed_job(corpus.cfg(P, n, n + 1), rec=False, deep=1)
+    return J.jobs
+
+def bytes_stage(tier_, key):
+    """many more (and much longer) generations validated at byte level only (TraceBytes.tla)"""
+    def compute(d):
+        build_harness()
+        jobs = bytes_jobs(tier_)
+        jf = os.path.join(d, "bytes_jobs.json"); json.dump(jobs, open(jf, "w"))
+        of = os.path.join(d, "bytes_traces.ndjson")
+        t0 = time.time()
+        run([PFV, "run-jobs", jf, of, str(CORES)], timeout=7200)
+        t_gen = time.time() - t0
+        byid = {j["id"]: j for j in jobs}
+        lines, weights = [], []
+        for l in open(of):
+            if not l.strip(): continue
+            r = json.loads(l); r.pop("ev", None); r["deep"] = byid[r["id"]].get("deep", 0)
+            lines.append(json.dumps(r)); weights.append(len(r["bytes"]) // 6 + 1)
+        if len(lines) != len(jobs):
+            raise ToolError("harness returned %d results for %d jobs" % (len(lines), len(jobs)))
+        shards = shard_lines(lines, CORES - 2, weights)
+        files = []
+        for i, ixs in enumerate(shards):
+            p = os.path.join(d, "bytes_shard%d.ndjson" % i)
+            open(p, "w").write("\n".join(lines[j] for j in ixs) + "\n"); files.append(p)
+        t0 = time.time()
+        res = tlc.run_trace_shards("bytes", "TraceBytes.tla", "TraceBytes.cfg", files, timeout=7200, xmx="4g")
+        t_tlc = time.time() - t0
+        findings, done, states = [], 0, 0
+        for vals, st, wall in res:
+            states += st["distinct"]
+            for v in vals:
+                if v and v[0] == "MSGS":
+                    for m in v[1]:
+                        findings.append({"kind": m[0], "job": byid[m[1]], "event": m[2], "tag": m[3], "why": m[4] if isinstance(m[4], str) else json.dumps(m[4])})
+                elif v and v[0] == "DONE":
+                    done += v[1]
+        if done != len(jobs):
+            raise ToolError("byte-level validation incomplete: %d of %d generations" % (done, len(jobs)))
+        for p in files: os.remove(p)
+        os.remove(of)
+        framed = sum(1 for l in lines[:5000] if '"bytes": [128, 4, 149' in l or '"bytes": [128, 5, 149' in l)
+        return {"findings": findings[:3000], "coverage": {"runs": len(jobs), "opcodes_decoded": states - 2 * len(jobs), "tlc_states": states,
+                "deep_programs": [j["cfg"]["min"] for j in jobs if j.get("deep")], "framed_pickles_at_least": framed,
+                "gen_wall_s": round(t_gen, 1), "tlc_wall_s": round(t_tlc, 1)},
+                "samples": [{"cfg": summarize_cfg(jobs[0]["cfg"]), "seed": jobs[0]["seed"], "bytes_hex": bytes(json.loads(lines[0])["bytes"]).hex()[:120]}]}
+    return cached(key, "bytes_%s_%d" % (tier_, seed()), compute)
 
 # ---------------------------------------------------------------------------
 # model checking of the design (depends on the spec only, not on /repo)
@@ -91,11 +188,14 @@ MC_RUNS = {
     "MC_Heap":        ("Heap.tla", "MC_Heap.cfg", ("quick", "thorough"), 8),
 }
 
+MODEL_FILES_EXCLUDED = ("Trace", "DiffRef", "Lexer", "Frontend")
+
 def spec_key(extra=""):
+    """content hash of the design-level model files (trace-validation specs do not affect model checking)"""
     import hashlib
     h = hashlib.sha256()
     for f in sorted(os.listdir(SPEC)):
-        if f.endswith((".tla", ".cfg")):
+        if f.endswith((".tla", ".cfg")) and not f.startswith(MODEL_FILES_EXCLUDED):
             h.update(f.encode()); h.update(open(os.path.join(SPEC, f), "rb").read())
     return "spec-" + h.hexdigest()[:20]
 
@@ -141,14 +241,16 @@ def mc_stage(tier_, names):
 # systematic enumeration of the implementation's decision tree (forced-choice hook)
 
 def edge_configs(tier_):
-    seeds = [sub_seed("edges", i) % (1 << 32) for i in range(6)]
+    # six PRNG seeds plus fuzzer-bytes entropy at its extremes (all-0x00, all-0xff, empty input)
+    seeds = [sub_seed("edges", i) % (1 << 32) for i in range(6)] + [2 ** 64 - 1, 2 ** 64 - 2, 2 ** 64 - 3]
     def ec(P, depth, ext=False, buf=False, unsafe=False, tag=""):
         return {"cfg": corpus.cfg(P, 0, 0, ext=ext, buf=buf, unsafe=unsafe), "depth": depth, "seeds": seeds,
                 "tag": tag or "P%d%s%s d%d" % (P, "+ext" if ext else "", "+buf" if buf else "", depth)}
     if tier_ == "quick":
-        return [ec(5, 3, True, True), ec(5, 2), ec(4, 2, True, False), ec(3, 2), ec(2, 2, True, False), ec(1, 3), ec(0, 3)]
+        return [ec(5, 3, True, True), ec(5, 2), ec(4, 2, True, False), ec(3, 2), ec(2, 2, True, False), ec(1, 3), ec(0, 3),
+                ec(5, 2, unsafe=True, tag="P5 unsafe d2")]
     return [ec(5, 4, True, True), ec(5, 3), ec(4, 3, True, False), ec(4, 3), ec(3, 3, True, False), ec(2, 3, True, False),
-            ec(2, 3), ec(1, 4), ec(0, 5)]
+            ec(2, 3), ec(1, 4), ec(0, 5), ec(5, 3, unsafe=True, tag="P5 unsafe d3"), ec(1, 3, unsafe=True, tag="P1 unsafe d3")]
 
 def edges_stage(tier_, key):
     def compute(d):
